@@ -419,7 +419,7 @@ class _Run:
         self.res = core.RunResult()
         self.log = core.EventLog()
         self.knobs = case["knobs"]
-        self.loop = SimLoop(max_steps=6000)
+        self.loop = SimLoop(max_steps=max(6000, 4 * len(case.get("ops", [])) + 3000))  # scale runs deliver thousands of datagrams
         self.handlers = {}
         self.addr = {"H1": H1, "H2": H2}
         self.by_addr = {H1: "H1", H2: "H2"}
